@@ -6,6 +6,8 @@ orcc is built from the tree and run on a corpus (.orc text in harness/c07/corpus
   (2) the generated *wrapper* is executed symbolically (irsym, from clang IR) through the prototype the header declares,
       with symbolic array contents and parameter values; its code pointer is the generated backup function of the same
       file (that is ORC_CODE=backup); memory afterwards is compared with the composition oracle of C02 by the solver
+  (2b) the same call with the code object ORC_CODE=emulate leaves behind: exec = the real orc_executor_emulate (IR of
+      orcexecutor.c + emulator kernels), instructions and variables of the program
   (3) the same call on the -DDISABLE_ORC body
   (1b) the bytecode array embedded in each generated wrapper is fed to the real orc_program_new_from_static_bytecode and the
       rebuilt program is compared with the parsed one                                           [concrete gate; symbolic: C13]
@@ -24,6 +26,15 @@ OFFSETS_C = r'''#include <stdio.h>
 #include <orc/orcinternal.h>
 int main(){printf("{\"code_exec\":%zu,\"sizeof_code\":%zu,\"prog_code_exec\":%zu,\"sizeof_prog\":%zu,\"ex_program\":%zu,\"ex_n\":%zu,\"ex_arrays\":%zu,\"ex_params\":%zu,\"ex_acc\":%zu,\"sizeof_ex\":%zu,\"A1\":%d,\"A2\":%d,\"T1\":%d,\"P1\":%d}",offsetof(OrcCode,exec),sizeof(OrcCode),offsetof(OrcProgram,code_exec),sizeof(OrcProgram),
 offsetof(OrcExecutor,program),offsetof(OrcExecutor,n),offsetof(OrcExecutor,arrays),offsetof(OrcExecutor,params),offsetof(OrcExecutor,accumulators),sizeof(OrcExecutor),ORC_VAR_A1,ORC_VAR_A2,ORC_VAR_T1,ORC_VAR_P1);}'''
+OFFSETS2_C = r'''#include <stdio.h>
+#include <stddef.h>
+#include <orc/orc.h>
+#include <orc/orcinternal.h>
+#define O(T,f) printf("\"%s.%s\":%zu,", #T, #f, offsetof(T,f))
+int main(){printf("{");O(OrcCode,n_insns);O(OrcCode,insns);O(OrcCode,vars);O(OrcCode,is_2d);O(OrcCode,constant_n);O(OrcCode,constant_m);
+O(OrcInstruction,opcode);O(OrcInstruction,dest_args);O(OrcInstruction,src_args);O(OrcInstruction,flags);
+O(OrcCodeVariable,vartype);O(OrcCodeVariable,size);O(OrcCodeVariable,value);
+printf("\"sizeof_insn\":%zu,\"sizeof_cvar\":%zu,\"sizeof_opcode\":%zu,\"NCV\":%d}",sizeof(OrcInstruction),sizeof(OrcCodeVariable),sizeof(OrcStaticOpcode),ORC_N_COMPILER_VARIABLES);}'''
 
 
 def prototypes(hdr_text):
@@ -113,6 +124,41 @@ def run_function(rep, b, m, off, job, fname, proto, prog, optable, n, rows, mode
     for a_ in asm:
         ex.assume(a_)
     acc_in = None
+    if mode == 'emulate':
+        # ORC_CODE=emulate: the published code object is the one a compile under that setting leaves behind - instructions and
+        # variables of the program, exec = orc_executor_emulate (the real function, from the IR of orcexecutor.c)
+        gname = [g_ for g_ in m.globals if g_.split('$')[0] == 'opcodes'][0]
+        opbase = ex.gaddr[gname]
+        ins = code['insns']
+        C = ex.alloc('code', off['sizeof_code'], init='zero')
+        I = ex.alloc('insns', off['sizeof_insn'] * len(ins), init='zero')
+        V = ex.alloc('cvars', off['sizeof_cvar'] * off['NCV'], init='zero')
+        ex.write(C, off['code_exec'], ex.function_address('orc_executor_emulate'), 8)
+        ex.write(C, off['OrcCode.n_insns'], len(ins), 4); ex.write(C, off['OrcCode.insns'], I, 8); ex.write(C, off['OrcCode.vars'], V, 8)
+        ex.write(C, off['OrcCode.is_2d'], 1 if code['is_2d'] else 0, 4)
+        ex.write(C, off['OrcCode.constant_n'], code.get('constant_n') or 0, 4); ex.write(C, off['OrcCode.constant_m'], code.get('constant_m') or 0, 4)
+        for j, insn in enumerate(ins):
+            a = j * off['sizeof_insn']
+            ex.write(I, a + off['OrcInstruction.opcode'], opbase + optable[insn['op']]['index'] * off['sizeof_opcode'], 8)
+            for k in range(2):
+                ex.write(I, a + off['OrcInstruction.dest_args'] + 4 * k, insn['d'][k] & 0xffffffff, 4)
+            for k in range(4):
+                ex.write(I, a + off['OrcInstruction.src_args'] + 4 * k, insn['s'][k] & 0xffffffff, 4)
+            ex.write(I, a + off['OrcInstruction.flags'], insn['flags'], 4)
+        for v in code['vars']:
+            a = v['i'] * off['sizeof_cvar']
+            ex.write(V, a + off['OrcCodeVariable.vartype'], v['vartype'], 4)
+            ex.write(V, a + off['OrcCodeVariable.size'], v['size'], 4)
+            ex.write(V, a + off['OrcCodeVariable.value'], int(v['value'], 16), 8)
+        g = ex.gaddr
+        if fname + '.once.0' in g:
+            ex.write(g[fname + '.once.0'], 0, 1, 4); ex.write(g[fname + '.once.1'], 0, C, 8)
+        elif fname + '.once' in g:
+            ex.write(g[fname + '.once'], 0, 1, 4); ex.write(g[fname + '.once'], 8, C, 8)
+        elif '_orc_code_' + fname in g:
+            ex.write(g['_orc_code_' + fname], 0, C, 8)
+        else:
+            raise Unsupported('cannot find the once object / code pointer of %s among the globals' % fname)
     if mode in ('wrapper', 'probe'):
         # the state after a completed first call: flag set, code object published; its exec is the generated backup function
         C = ex.alloc('code', off['sizeof_code'], init='zero')
@@ -283,7 +329,7 @@ def main():
     t = tier()
     rep.bounds = dict(corpus='%d functions of harness/c07/corpus.orc' % len(re.findall(r'^\.function', open(CORPUS).read(), re.M)),
                       inputs='array contents and every parameter value fully symbolic; n=3 (constant n as declared), m=2, strides = row bytes + 6',
-                      option_sets='compile gate: default(lazy), --inline, --lazy-init, --compat 0.4.5, --no-backup, .init (eager) x {normal, DISABLE_ORC}; symbolic: default/.init wrappers + backup, DISABLE_ORC bodies',
+                      modes='marshalling contract (probe), wrapper+backup, wrapper+orc_executor_emulate, DISABLE_ORC', option_sets='compile gate: default(lazy), --inline, --lazy-init, --compat 0.4.5, --no-backup, .init (eager) x {normal, DISABLE_ORC}; symbolic: default/.init wrappers + backup, DISABLE_ORC bodies',
                       memfuncs='orc_memcpy/orc_memset n in {0,1,7} (thorough up to 33), misaligned pointers, symbolic bytes')
     rep.assume('the wrapper is executed in the state after a completed first call (once flag set, code published); the first call itself is C08',
                'the code pointer the wrapper jumps to is the generated backup function (ORC_CODE=backup); JIT code and orc_executor_emulate are tied to the same oracle by C01 and C02',
@@ -300,6 +346,9 @@ def main():
     oe = os.path.join(b.dir, 'offs')
     subprocess.check_call(['gcc'] + b.cflags + [src, '-o', oe])
     off = json.loads(subprocess.check_output([oe]))
+    open(src, 'w').write(OFFSETS2_C)
+    subprocess.check_call(['gcc'] + b.cflags + [src, '-o', oe])
+    off.update(json.loads(subprocess.check_output([oe])))
     corpus = open(CORPUS).read()
     # --compat 0.4.5 refuses float/64-bit parameters x2/x4 instructions, .n bounds and 64-bit constants by design (REQUIRE in orcc): those functions are left out of that corpus
     blocks = re.split(r'(?m)^(?=\.function)', corpus)
@@ -360,10 +409,11 @@ def main():
                 diff = [(a, b_) for a, b_ in zip(got.splitlines() + ['<missing>'] * 50, recipe.strip().splitlines()) if a != b_][:2]
                 rep.violated('c07.bytecode|%s' % fname, '%s: the program rebuilt from the bytecode embedded in the wrapper differs from the parsed program (rc=%d): %s' % (job, r3.returncode, diff or got[:200]), name=job)
     # ---- (2)(3) symbolic runs ---------------------------------------------------------------------------------------------
-    runs = [('default', 'probe', []), ('default', 'wrapper', []), ('default', 'noorc', ['DISABLE_ORC']), ('eager', 'probe', []), ('inline', 'probe', [])]
+    runs = [('default', 'probe', []), ('default', 'wrapper', []), ('default', 'emulate', []), ('default', 'noorc', ['DISABLE_ORC']), ('eager', 'probe', []), ('inline', 'probe', [])]
     if t != 'quick':
         runs += [('eager', 'wrapper', []), ('lazyinit', 'probe', []), ('nobackup', 'probe', []), ('eager_inline', 'probe', [])]
     ll_probe = b.ir('c07_probe', os.path.join(VERIF, 'harness', 'c07', 'probe.c'), wrapv=True)
+    ll_emu = [b.ir('c07_' + t_[:-2].replace('-', '_'), os.path.join(REPO, 'orc', t_), wrapv=True) for t_ in ('orcemulateopcodes.c', 'orcopcodes-sys.c', 'orcopcode.c', 'orcutils.c')]
     ll_exec = b.ir('c07_orcexecutor', os.path.join(REPO, 'orc', 'orcexecutor.c'), wrapv=True)
     FLOAT = 2 | 4           # ORC_STATIC_OPCODE_FLOAT_SRC | FLOAT_DEST
     for tag, mode, defs in runs:
@@ -377,7 +427,7 @@ def main():
                 src_c = os.path.join(b.dir, 'inl_%s_%s.c' % (tag, mode))
                 open(src_c, 'w').write('#include "%s"\n' % os.path.basename(h_out) + ''.join('void *use_%s = (void *) %s;\n' % (f, f) for f in protos))
             ll = b.ir('c07_%s_%s' % (tag, mode), src_c, wrapv=True, defs=defs, extra=['-I' + b.dir])
-            m = Module.load([ll, ll_exec] + ([ll_probe] if mode == 'probe' else []) if mode != 'noorc' else [ll])
+            m = Module.load([ll, ll_exec] + ([ll_probe] if mode == 'probe' else []) + (ll_emu if mode == 'emulate' else []) if mode != 'noorc' else [ll])
         except Exception as e:
             rep.inconc('c07.sym.%s.%s' % (tag, mode), 'IR: %s' % str(e)[:300])
             continue
